@@ -139,6 +139,15 @@ func planC14(tier string, root *simcore.RNG) *plan {
 			add(fmt.Sprintf("asciie:%d:%d", n, seed+uint64(7*n+k)))
 		}
 	}
+	// E10: an over-long line at every line position of small ASCII files
+	for _, n := range []int{1, 2, 3} {
+		b := bs("ascii", n)
+		for i := 0; i <= 2+7*n; i++ {
+			add(b, fmt.Sprintf("long-line:%d:0", i))
+			add(b, fmt.Sprintf("long-line:%d:1", i))
+			add(b, fmt.Sprintf("long-line:%d:0", i), "crlf")
+		}
+	}
 	// E7: what the path is
 	for _, b := range []string{bs("bin", 2), bs("ascii", 2), bs("bin", 0)} {
 		for _, op := range []string{"as-symlink", "as-directory", "as-devnull", "as-devzero", "as-missing", "odd-name"} {
